@@ -204,10 +204,26 @@ func (v *PacketDslVisitorImpl) VisitPacketDefinition(ctx *gen.PacketDefinitionCo
 
 	// references to fields of this packet must resolve: drop the referring field otherwise,
 	// so that no generator meets a nil key field or length target
+	// (match fields first: a length-of field may target a match field that is dropped here)
 	resolved := fields[:0:0]
 	for _, f := range fields {
-		switch c := f.Attr.(type) {
-		case *model.LengthFieldAttribute:
+		if c, ok := f.Attr.(*model.MatchFieldAttribute); ok {
+			if _, ok := fieldMap[c.MatchKeyField.Name]; !ok {
+				v.BinModel.AddSyntaxError(&model.SyntaxError{
+					Line: fieldLines[f],
+					Msg:  "Unknown match key field " + c.MatchKeyField.Name + " for match field " + f.Name,
+				})
+				delete(fieldMap, f.Name)
+				delete(matchFields, c.MatchKeyField.Name)
+				continue
+			}
+		}
+		resolved = append(resolved, f)
+	}
+	fields = resolved
+	resolved = fields[:0:0]
+	for _, f := range fields {
+		if c, ok := f.Attr.(*model.LengthFieldAttribute); ok {
 			if _, ok := fieldMap[c.TragetField.Name]; !ok {
 				v.BinModel.AddSyntaxError(&model.SyntaxError{
 					Line: fieldLines[f],
@@ -217,16 +233,6 @@ func (v *PacketDslVisitorImpl) VisitPacketDefinition(ctx *gen.PacketDefinitionCo
 				if lengthField == f {
 					lengthField = nil
 				}
-				continue
-			}
-		case *model.MatchFieldAttribute:
-			if _, ok := fieldMap[c.MatchKeyField.Name]; !ok {
-				v.BinModel.AddSyntaxError(&model.SyntaxError{
-					Line: fieldLines[f],
-					Msg:  "Unknown match key field " + c.MatchKeyField.Name + " for match field " + f.Name,
-				})
-				delete(fieldMap, f.Name)
-				delete(matchFields, c.MatchKeyField.Name)
 				continue
 			}
 		}
